@@ -407,7 +407,7 @@ def step1 (st : St) (op impl : String) : St × StepOut :=
       | [kind, res, st, name, pid, pg, mon, kids, link, post] =>
         (if res == "ok" && !(st == "6" && name == "0" && pid == "0" && pg == "0" && mon == "0" && kids == "0"
             && link == "0" && (!graceful || post == "1")) then ["premature-return"] else []) ++
-        (if res == "timeout" && kind != "wait_timeout" then ["spurious-timeout"] else [])
+        (if res == "timeout" && !kind.endsWith "_timeout" then ["spurious-timeout"] else [])
       | [_, "hung", _] => ["lost-wakeup"]
       | _ => ["unparsable"]
     let orc := (ws.map bad).foldl (· ++ ·) [] ++
